@@ -63,6 +63,7 @@ class TStep(IntegratorStep):
         self.move = move
         self.grow = grow
         self.peer = peer
+        self._b = 2.0*c + 1.0       # an attribute with a leading underscore is a stepper parameter like any other
 
     def py_stage1(self, dst, t, dt):
         dst.c0[0] = (3.0*dst.c0[0] + self.c + 8.0*t + 1600.0*dt) % 1000003.0
@@ -85,7 +86,7 @@ class TStep(IntegratorStep):
         d_h[d_idx] = d_h[d_idx]*self.grow
 
     def stage2(self, d_idx, d_s, d_s0, d_au, d_x, t, dt):
-        d_s[d_idx] = (7.0*d_s[d_idx] + d_s0[d_idx] + 2.0*d_au[d_idx] + 8.0*t + 1600.0*dt) % 1000003.0
+        d_s[d_idx] = (7.0*d_s[d_idx] + d_s0[d_idx] + 2.0*d_au[d_idx] + 8.0*t + 1600.0*dt + self._b) % 1000003.0
         d_x[d_idx] = d_x[d_idx] + self.move*((d_s[d_idx] % 3.0) - 1.0)
 
     def stage3(self, d_idx, d_s, d_au, d_c0, t, dt):
@@ -126,12 +127,13 @@ class TStepB(IntegratorStep):
     """a second stepper class (different per-array steppers): no py hooks, other constants"""
     def __init__(self, c=2.0):
         self.c = c
+        self._q = 3.0*c
 
     def initialize(self, d_idx, d_s, d_s0):
         d_s0[d_idx] = (d_s[d_idx] + 1.0) % 1000003.0
 
     def stage1(self, d_idx, d_s, d_au, t, dt):
-        d_s[d_idx] = (19.0*d_s[d_idx] + d_au[d_idx] + 8.0*t + 1600.0*dt + self.c) % 1000003.0
+        d_s[d_idx] = (19.0*d_s[d_idx] + d_au[d_idx] + 8.0*t + 1600.0*dt + self.c + self._q) % 1000003.0
 
     def stage2(self, d_idx, d_s, d_s0, d_au, t, dt):
         d_s[d_idx] = (23.0*d_s[d_idx] + d_s0[d_idx] + d_au[d_idx] + 8.0*t + 1600.0*dt) % 1000003.0
@@ -157,6 +159,16 @@ class TAcc(Equation):
 
     def loop(self, d_idx, s_idx, d_au, s_s):
         d_au[d_idx] = (7.0*d_au[d_idx] + s_s[s_idx]) % 1000003.0
+
+
+class TAccNoSrc(Equation):
+    """an acceleration without sources (a body force): an equation set may consist of such equations only"""
+    def __init__(self, dest, sources, c=1.0):
+        self.c = c
+        super(TAccNoSrc, self).__init__(dest, sources)
+
+    def initialize(self, d_idx, d_au, t, dt):
+        d_au[d_idx] = (self.c + 8.0*t + 1600.0*dt) % 1000003.0
 
 
 class Noop(Equation):
